@@ -304,7 +304,7 @@ class Executor:
                         else:
                             cargs.append(self.val(toks[-1], aty, env))
                     rv = self.call(callee, rty, cargs, pc, res, depth, curmem)
-                    if isinstance(rv, tuple) and rv and rv[0] == "__mem__":
+                    if isinstance(rv, tuple) and rv and isinstance(rv[0], str) and rv[0] == "__mem__":
                         curmem, rv = rv[1], rv[2]
                         res.mem = curmem
                     if ins_.dest is not None:
